@@ -101,6 +101,30 @@ def harmless_patches() -> List[Dict]:
     return out
 
 
+def seeded_mutants() -> List[Dict]:
+    """the independently written breaking changes kept under /verif/seeded/<id>/ are
+    replayed as mutants: each must be reported by every check that reported it when it
+    was filed (meta.json: checks_reporting)."""
+    import json
+
+    d = os.path.join(VERIF, "seeded")
+    out = []
+    if os.path.isdir(d):
+        for sid in sorted(os.listdir(d)):
+            mp = os.path.join(d, sid, "meta.json")
+            pp = os.path.join(d, sid, "patch.diff")
+            if not (os.path.exists(mp) and os.path.exists(pp)):
+                continue
+            try:
+                meta = json.load(open(mp))
+            except Exception:
+                continue
+            props = [p for p, v in meta.get("checks_reporting", {}).items() if v.get("rc") == 1]
+            if props:
+                out.append({"kind": "mutant", "id": "seeded-" + sid, "props": props, "patch": pp, "steps": [], "desc": "independently written breaking change", "expect_text": None})
+    return out
+
+
 ALL_PROPS = ["C01", "C02", "C03", "C04", "C05", "C07", "C08", "C09", "C10", "C11", "C12", "C13", "C14", "C15", "C16", "C17", "C18", "C19", "C20"]
 
 
@@ -126,7 +150,7 @@ def summarise(results: List[Dict]) -> Dict:
 
 
 def run_for(prop: str, seed: int = 0) -> Dict:
-    pairs = [(e, prop) for e in edits.ALL + harmless_patches() if prop in e["props"]]
+    pairs = [(e, prop) for e in edits.ALL + harmless_patches() + seeded_mutants() if prop in e["props"]]
     if seed:
         import random
 
@@ -145,7 +169,7 @@ def main(argv=None):
     ap.add_argument("-v", action="store_true")
     a = ap.parse_args(argv)
     pairs = []
-    for e in edits.ALL + harmless_patches():
+    for e in edits.ALL + harmless_patches() + seeded_mutants():
         if a.id and a.id not in e["id"]:
             continue
         for p in e["props"]:
